@@ -8,7 +8,7 @@ from props import fam_readers as F
 from props import fam_sym
 
 MANIFEST = dict(
-    technique='Coq proof (PIR/FASTA reader total and in bounds, triplet parser terminates, Hall-symbol interpreter in bounds, for every byte string) + exact differential check of the modelled parsers on arbitrary bytes + sanitizer-instrumented runs of every reader entry point',
+    technique='Coq proof (operation-expression parser total, in bounds and with bounded output; PIR/FASTA reader total and in bounds, triplet parser terminates, Hall-symbol interpreter in bounds, for every byte string) + exact differential check of the modelled parsers on arbitrary bytes + sanitizer-instrumented runs of every reader entry point',
     text='parse_operation_expr (oper_expression of assemblies; Readers/OperExpr.v, compared exactly with the function of src/mmcif.cpp, which a harness translation unit includes textually because it lives in an anonymous namespace) is proved to stop on every byte string, never to ask for a substring beyond the end of the text, and - after the repair - to return at most a million names plus the length of the text; the unbounded expansion of the snapshot is refuted by 1-2000000000. Besides ASan+UBSan, every whole sample file goes through every reader under valgrind/memcheck in a build without sanitizers (accesses inside libstdc++ and uses of uninitialised values are visible only there). Theorems for ALL byte strings: read_pir_or_fasta never indexes outside its string or an empty vector and always returns or throws; parse_triplet and parse_triplet_part terminate (the loop consumes at least one byte per iteration); the Hall-symbol interpreter (symops_from_hall incl. change of basis and Dimino closure) never indexes Op::tran outside {0,1,2} (the model makes the index explicit; the snapshot wrote tran[-120]). The models of the triplet parser, Hall-symbol interpreter (incl. Dimino closure) and space-group name lookup are compared exactly (value or exception) with gemmi on arbitrary, grammar-derived and mutated byte strings; the Hall model predicted an out-of-bounds write that was confirmed under UBSan and repaired. Memory safety, termination and resource limits of the remaining C++ readers are NOT theorems: every entry point named by the property (CIF at 3 check levels, mmJSON, PDB with options, XDS_ASCII, PIR/FASTA, triplets, Hall symbols, names, selections, and the block->structure / small structure / chemical component / reflection-table conversions) is run under ASan+UBSan with a 10 s alarm on random bytes, grammar-derived texts, seeded byte/line mutations and truncation points of every sample file under /repo/tests; outcome classes OK/EXC are accepted, CRASH/TIMEOUT are violations with the input as replay.',
     note='Trusted: Coq kernel; extraction; harness; ASan/UBSan. No axioms. PARTIAL by nature: safety of PEGTL, sajson and the conversion code is observed by the sanitizer run (testing), not proved. Signed-integer-overflow reports in number parsing of absurdly long digit strings are treated as crashes too.')
 
